@@ -109,6 +109,8 @@ structure SeqCall where
   res : Nat        -- what the call returned
   deriving DecidableEq, Repr, Inhabited
 
+namespace SeqConc
+
 /-- where a thread is inside a call (`b` = its `before` ticket).  The body of
     `NextSequenceNumber` is split into every single read and write of a shared field:
     `s.sequenceNumber++` (read, write), `if s.sequenceNumber == 0` (read), `s.rollOverCount++`
@@ -188,5 +190,7 @@ def Sys.Quiescent (s : Sys) : Prop := ∀ i, (s.thr i).pc = .idle
 
 /-- every thread has finished its program -/
 def Sys.Complete (s : Sys) : Prop := ∀ i, (s.thr i).pc = .idle ∧ (s.thr i).todo = []
+
+end SeqConc
 
 end Rtp.Model
